@@ -17,7 +17,7 @@ import gen_engines as G
 PID = "C14"
 MODULES = ["FlVerif.Props.C14"]
 NAMESPACE = "C14"
-TIE_A = ["Tables.export",
+TIE_A = ["Tables.export", "code:fuzzylite.rule.Rule.parse",
          # the exporter (theorems `code_*` in the block "Tie A: exporter" of Props/C14.lean)
          "code:fuzzylite.term.Term._parameters", "code:fuzzylite.term.Triangle.parameters", "code:fuzzylite.term.Constant.parameters",
          "code:fuzzylite.term.Linear.parameters", "code:fuzzylite.rule.Rule.text.fget",
@@ -295,10 +295,18 @@ def oracle_engine(case, d):
     if sd:
         return False, "imported engine differs in structure: " + sd
     if rep and case.get("rows"):
+        # the same text is imported a second time before the first imported engine is used: imported engines are
+        # independent of one another (nothing of one import may be shared with, or re-bound by, a later one)
+        e2b = fl.FllImporter().from_string(t1)
         o1, o2 = G.run_rows(e, case["rows"]), G.run_rows(e2, case["rows"])
         if o1 != o2:
             i = next(i for i, (a, b) in enumerate(zip(o1, o2)) if a != b)
-            return False, f"outputs differ on row {i}: original {o1[i]} imported {o2[i]}"
+            return False, (f"outputs differ on row {i}: original {o1[i]} imported {o2[i]} (the text was imported twice; this is "
+                           f"the engine of the first import, evaluated after the second import)")
+        o2b = G.run_rows(e2b, case["rows"])
+        if o1 != o2b:
+            i = next(i for i, (a, b) in enumerate(zip(o1, o2b)) if a != b)
+            return False, f"outputs of the second import of the same text differ on row {i}: original {o1[i]} imported {o2b[i]}"
     e3 = fl.FllImporter().from_string(t2)
     if export(e3) != t2:
         return False, "second cycle is not a fixed point"
